@@ -593,39 +593,65 @@ class E2ESuite(Suite):
     model_fn = None
 
     def run(self, case):
+        import signal
+
+        class Hang(Exception):
+            pass
+
+        def on_alarm(sig, frm):
+            raise Hang()
+
         res = []
-        with sc.quiet_log():
-            with RealBash() as lh:
-                with contextlib.ExitStack() as cx:
-                    m = cx.enter_context(RealDash(lh)) if case["ash"] else lh
-                    m.ch.READ_CHUNK_SIZE = case["chunk"]
-                    for kind, args, st, outhex in case["calls"]:
-                        full = ["/venv/bin/python", HELPER, str(st), outhex] + list(args)
-                        try:
-                            if kind == "exec":
-                                rc, out = m.exec(*full)
-                                res.append([0, rc, out])
-                            elif kind == "exec0":
-                                res.append([0, m.exec0(*full)])
-                            else:
-                                res.append([0, 1 if m.test(*full) else 0])
-                        except tbot.error.CommandFailure:
-                            res.append([1])
-                        except tbot.error.IllegalDataException:
-                            res.append([2, 4])
-                        except tbot.error.InvalidRetcodeError as e:
-                            res.append([3, e.retcode_str])
+        old = signal.signal(signal.SIGALRM, on_alarm)
+        try:
+            with sc.quiet_log():
+                try:
+                    with RealBash() as lh:
+                        with contextlib.ExitStack() as cx:
+                            m = cx.enter_context(RealDash(lh)) if case["ash"] else lh
+                            m.ch.READ_CHUNK_SIZE = case["chunk"]
+                            for kind, args, st, outhex, rep in case["calls"]:
+                                full = ["/venv/bin/python", HELPER, str(st), outhex, str(rep)] + list(args)
+                                signal.alarm(20)
+                                try:
+                                    if kind == "exec":
+                                        rc, out = m.exec(*full)
+                                        res.append([0, rc, out])
+                                    elif kind == "exec0":
+                                        res.append([0, m.exec0(*full)])
+                                    else:
+                                        res.append([0, 1 if m.test(*full) else 0])
+                                except tbot.error.CommandFailure:
+                                    res.append([1])
+                                except tbot.error.IllegalDataException:
+                                    res.append([2, 4])
+                                except tbot.error.InvalidRetcodeError as e:
+                                    res.append([3, e.retcode_str])
+                                except Hang:
+                                    res.append([9])       # no answer within 20 s: the machine lost sync with its shell
+                                    break
+                                finally:
+                                    signal.alarm(0)
+                            signal.alarm(10)
+                except Hang:
+                    pass
+                finally:
+                    signal.alarm(0)
+        finally:
+            signal.signal(signal.SIGALRM, old)
         return res
 
     def oracle(self, case, obs):
         fails = []
         bl = ASH_BL if case["ash"] else BASH_BL
-        for (kind, args, st, outhex), r in zip(case["calls"], obs):
+        if len(obs) < len(case["calls"]):
+            obs = list(obs) + [[9]] * (len(case["calls"]) - len(obs))
+        for (kind, args, st, outhex, rep), r in zip(case["calls"], obs):
             if any(ord(c) < 128 and ord(c) in bl for a in args for c in a):
                 if r != [2, 4]:
                     fails.append(f"{kind} with a forbidden byte in {args!r} gave {r!r} instead of IllegalDataException")
                 continue
-            payload = bytes.fromhex(outhex)
+            payload = bytes.fromhex(outhex) * rep
             want_out = "|".join(a.encode("utf-8").hex() for a in args) + "\n" + sc.py_text(payload)
             if kind == "exec":
                 want = [0, st, want_out]
@@ -658,9 +684,10 @@ class E2ESuite(Suite):
                 else:
                     args = [rand_arg(rng, ash) for _ in range(rng.randint(0, 4))]
                 args = [a.replace("\r", "") for a in args]
-                if sum(len(a.encode()) for a in args) > 3000:
-                    args = args[:1]
-                calls.append([rng.choice(["exec", "exec", "exec0", "test"]), args, rand_status(rng), rand_output(rng).replace(TBOT_PROMPT, b"T")[:3000].hex()])
+                while sum(len(a.encode()) * 4 + 3 for a in args) > 2400:       # keep the line below the tty's 4096-byte limit
+                    args = args[:-1]
+                payload = rand_output(rng).replace(TBOT_PROMPT, b"T").replace(b"y" * 100, b"")[:300]
+                calls.append([rng.choice(["exec", "exec", "exec0", "test"]), args, rand_status(rng), payload.hex(), rng.choice([1, 1, 1, 2, 40])])
             yield {"ash": ash, "chunk": rng.choice([1, 7, 4096, 4096]), "calls": calls}
 
 
